@@ -1,4 +1,4 @@
-CONSTANTS NReq = 3  NConn = 2  Shapes <- ShapesTriple  Pools = {1, 2}  HTs = {TRUE}
+CONSTANTS NReq = 3  NConn = 1  Shapes <- ShapesTriple  Pools = {1, 2}  HTs = {TRUE}
   TimerAfterDecode = TRUE  KF_BlankTimeoutReply = FALSE  KF_PacketTypeSetLate = FALSE  KF_TupDropsResult = FALSE
 SPECIFICATION Spec
 INVARIANTS AtMostOnce NoStrayReply SafeSoFar AtQuiescence ExecutedAtMostOnce
